@@ -1,7 +1,7 @@
 """C03 — all pairing entry points agree and ignore the projective representative (structural clauses)."""
 from core import report
 from core.sm9 import Repo
-from . import shared, norm
+from . import shared, norm, miller
 
 
 def run(ctx):
@@ -14,6 +14,7 @@ def run(ctx):
         if cfg == "dev":
             rules.append(norm.rule_id_guard("C03", repo, N))
             rules.append(norm.rule_prep_immut("C03", repo))
+            rules.extend(miller.rules("C03", repo))
     return report.emit(
         "C03", ctx.tier, ctx.seed, rules, ctx.started,
         "Typestate over Jacobian points: affine-only parameters are inferred (reads x/y, never z), requirements lift through unchanged / z-preservingly mapped "
